@@ -3,7 +3,7 @@
 From Util Require Import Common.Base Common.ListLemmas RefCount.Model RefCount.Spec RefCount.Proofs RefCount.ProofsC08 RefCount.ProofsC08b
   RefCount.ProofsC09 RefCount.ProofsC10 RefCount.ProofsC10a RefCount.ProofsC10b RefCount.ProofsCodec RefCount.ProofsMon RefCount.ProofsMon2 RefCount.ProofsMon3
   RefCount.ProofsMon4 RefCount.ProofsMon5 RefCount.ProofsMon6 RefCount.ProofsMon7 RefCount.ProofsMonG RefCount.ProofsMon8 RefCount.ProofsMon9 RefCount.ProofsMon10
-  RefCount.ProofsMon11 RefCount.ProofsMon12 RefCount.ProofsMon13 RefCount.ProofsMon14 RefCount.ProofsMon15.
+  RefCount.ProofsMon11 RefCount.ProofsMon12 RefCount.ProofsMon13 RefCount.ProofsMon14 RefCount.ProofsMon15 RefCount.ProofsMon19.
 Open Scope nat_scope.
 
 Lemma HR_mirror h i : HR h -> i < length (conss (hs h)) -> ck (getc (hs h) i) = CKAccess -> attached_pc (cpcv (getc (hs h) i)) = true ->
@@ -11,10 +11,13 @@ Lemma HR_mirror h i : HR h -> i < length (conss (hs h)) -> ck (getc (hs h) i) = 
 Proof. intros [[k [es [-> _]]] _] Hi Hk Hp. exact (access_mirror k es i _ (nth_error_getc _ i Hi) Hk Hp). Qed.
 
 Lemma HR_cur_val h i v : HR h -> i < length (conss (hs h)) -> ck (getc (hs h) i) = CKAccess -> cpcv (getc (hs h) i) = CAccCb v ->
-  ac_cbcanc (getc (hs h) i) = false -> resolved (hs h) = true /\ value (hs h) = v /\ verr (hs h) = 0.
+  ac_cbcanc (getc (hs h) i) = false -> ac_wpark (getc (hs h) i) = false -> resolved (hs h) = true /\ value (hs h) = v /\ verr (hs h) = 0.
 Proof.
-  intros [[k [es [-> _]]] _] Hi Hk Hp Hc. destruct (access_called_with_current_value k es i _ v (nth_error_getc _ i Hi) Hk Hp Hc) as [A [B [C _]]]. auto.
+  intros [[k [es [-> _]]] _] Hi Hk Hp Hc Hw. destruct (access_called_with_current_value k es i _ v (nth_error_getc _ i Hi) Hk Hp Hc Hw) as [A [B [C _]]]. auto.
 Qed.
+
+Lemma HR_W h : HR h -> InvW (conss (hs h)).
+Proof. intros [[k [es [-> _]]] _]. apply run_InvW. Qed.
 
 Lemma HR_acc_ok h i : HR h -> acc_ok (getc (hs h) i).
 Proof. intros H. apply InvK_getc. now apply HR_K. Qed.
@@ -92,10 +95,13 @@ Section Acc.
   Lemma started_fresh i :
     i < length (conss s') -> ck (getc s' i) = CKAccess -> is_cb (cpcv (getc s' i)) = true ->
     (nth i (m_acb m) false = false \/ exists res, e0 = ECbReturn i res) ->
-    ac_cbcanc (getc s' i) = false /\ ac_nonce (getc s' i) = ac_snap (getc s' i).
+    ac_cbcanc (getc s' i) = false /\ ac_nonce (getc s' i) = ac_snap (getc s' i) /\ ac_wpark (getc s' i) = false.
   Proof.
     intros Hi Hk Hp Hs. rewrite len_s1 in Hi. rewrite ck_s1 in Hk.
-    destruct (is_cb (cpcv (getc s1 i))) eqn:E1; [exfalso | now apply settle_fresh_cb].
+    destruct (is_cb (cpcv (getc s1 i))) eqn:E1.
+    2:{ destruct (settle_fresh_cb s1 i Hi Hk E1 Hp) as [A B]. split; [exact A|]. split; [exact B|].
+        apply (settle_fresh_cb_wpark s1 i Hi E1). apply InvW_getc. exact (HR_W _ (HR_mid h e e0 rets HRh Hd)). }
+    exfalso.
     destruct (sect_into_cb s e0 i (dec_not_cons_step h e e0 rets Hd) Hi Hk E1) as [Hl [Hk0 [Hp0 Hn]]].
     destruct Hs as [Hs|[res Hs]]; [|exact (Hn res Hs)]. rewrite (ra_acb m s HA i), Hk0, Hp0 in Hs. discriminate.
   Qed.
@@ -136,14 +142,14 @@ Section JudgePieces.
     if j_started i acb code then false else ainv || (acb && match u_lost m e p with Some _ => true | None => false end).
   Definition j_c4 (i : nat) (acb : bool) (code v : N) : list (nat * nat) :=
     fails 10 4 (negb (j_started i acb code) || match u_cur m e p with Some (g, e0) => N.eqb e0 0 && N.eqb v (u_vofe m e g) | None => false end).
-  Definition j_c5 (i : nat) (acb ainv : bool) (code hh : N) : list (nat * nat) :=
-    fails 10 5 (negb (N.eqb code 6 && j_inv i acb ainv code) || nz hh).
+  Definition j_c5 (i : nat) (acb ainv : bool) (code hh fp : N) : list (nat * nat) :=
+    fails 10 5 (negb (N.eqb code 6 && j_inv i acb ainv code && negb (N.eqb fp 1)) || nz hh).
 
   Lemma judge_shape i acb acanc ainv ccb adec k r ccn code v e1 hh f1 f2 :
     exists adec' rest,
       (u_judge m e p (i, ((acb, acanc, ainv, ccb, adec), ((k, r), (ccn, (code, v, e1, hh, f1, f2))))) =
        if negb (N.eqb k 2) then (false, false, false, None, [])
-       else (N.eqb code 6, N.eqb code 6 && nz hh, j_inv i acb ainv code, adec', (j_c4 i acb code v ++ j_c5 i acb ainv code hh ++ rest)%list)) /\
+       else (N.eqb code 6, N.eqb code 6 && nz hh, j_inv i acb ainv code, adec', (j_c4 i acb code v ++ j_c5 i acb ainv code hh f2 ++ rest)%list)) /\
       forall pc, In pc rest -> pc = (10, 6) \/ pc = (10, 7).
   Proof.
     unfold u_judge. destruct (negb (N.eqb k 2)); [exists None, []; split; [reflexivity | intros pc []]|].
